@@ -16,12 +16,12 @@ def _checksum(buf: bytes) -> int:
     return (~sum(buf)) & 0xFFFFFFFF
 
 
-def footer(size: int, disk_type: int, data_offset: int, uid: bytes, legacy: bool) -> bytes:
+def footer(size: int, disk_type: int, data_offset: int, uid: bytes, legacy: bool, original: int | None = None) -> bytes:
     cyl = min(65535, max(1, size // 512 // (16 * 63)))
     geom = (cyl << 16) | (16 << 8) | 63
     feat = 0 if legacy else 2
     body = struct.pack(">8sIIQI4sI4sQQIII16sB", b"conectix", feat, 0x00010000, data_offset, 0x2A000000, b"hvsm", 0x00010000,
-                       b"Wi2k", size, size, geom, disk_type, 0, uid, 0)
+                       b"Wi2k", size if original is None else original, size, geom, disk_type, 0, uid, 0)
     body = body.ljust(512, b"\0")
     c = _checksum(body)
     body = body[:64] + struct.pack(">I", c) + body[68:]
@@ -55,7 +55,7 @@ def gen_cfg(rng, tier: str, big: bool = False) -> dict:
         "bat_gap": rng.choice([0, 0, 512, 512 * rng.randint(0, 30)]),
         "bat_after_data": rng.random() < 0.15,
         # table_offset is an absolute byte offset: nothing makes it a multiple of the sector size
-        "bat_skew": rng.choice([0, 0, 0, 4, 100, 258]),
+        "bat_skew": rng.choice([0, 0, 0, 4, 100, 258]), "resized": rng.choice([0, 0, 1, 2]),
         "data_gap": rng.choice([0, 0, 512, 512 * rng.randint(0, 64)]),
         "uid_seed": rng.getrandbits(32),
         "bitmap": rng.choice(["ones", "written"]),
@@ -63,6 +63,12 @@ def gen_cfg(rng, tier: str, big: bool = False) -> dict:
         # block starts are 32-bit sector numbers: the file can reach 2 TiB; entries >= 0x80000000 need offsets >= 1 TiB
         "far_off": rng.choice([1 << 32, 1 << 40, (1 << 40) + (1 << 39), (1 << 40) + (3 << 38)]),
     }
+
+
+def _orig(cfg, size: int) -> int:
+    """original_size: the size at creation time; differs from current_size once the disk has been resized."""
+    how = cfg.get("resized", 0)
+    return size if not how else max(512, size // 2) if how == 1 else size + (3 << 20)
 
 
 def render(cfg: dict, layer: Layer, view: View) -> Image:
@@ -74,11 +80,11 @@ def render(cfg: dict, layer: Layer, view: View) -> Image:
     name = "disk.vhd"
     if cfg["fixed"]:
         put_view(f, 0, view, 0, layer.n)
-        ft = footer(size, 2, 0xFFFFFFFFFFFFFFFF, uid, legacy)
+        ft = footer(size, 2, 0xFFFFFFFFFFFFFFFF, uid, legacy, _orig(cfg, size))
         f.write(size, ft)
         f.set_length(size + len(ft))
         foff = size
-        img.meta = {"size": size, "uid": uid, "disk_type": 2}
+        img.meta = {"size": size, "uid": uid, "disk_type": 2, "original_size": _orig(cfg, size)}
         img.meta_bytes = 512
     else:
         bs = cfg["block"]
@@ -104,7 +110,7 @@ def render(cfg: dict, layer: Layer, view: View) -> Image:
             end = data_off + nslots * stride
         # BAT entries are 32-bit sector numbers: keep every block start below 2^32 sectors
         assert (data_off + nslots * stride) // 512 < 0xFFFFFFFF
-        ft = footer(size, 3, hdr_off, uid, False)
+        ft = footer(size, 3, hdr_off, uid, False, _orig(cfg, size))
         f.write(0, ft)
         dyn = struct.pack(">8sQQIIII16sII512s", b"cxsparse", 0xFFFFFFFFFFFFFFFF, bat_off, 0x00010000, nblocks, bs, 0,
                           bytes(16), 0, 0, bytes(512))
@@ -143,11 +149,11 @@ def render(cfg: dict, layer: Layer, view: View) -> Image:
         for s in range(nslots):
             if s not in used:
                 put_poison(f, data_off + s * stride, stride, 0x57A1)
-        ft_end = footer(size, 3, hdr_off, uid, legacy)
+        ft_end = footer(size, 3, hdr_off, uid, legacy, _orig(cfg, size))
         f.write(end, ft_end)
         f.set_length(end + len(ft_end))
         foff = end
-        img.meta = {"size": size, "uid": uid, "disk_type": 3, "block_size": bs, "table_offset": bat_off,
+        img.meta = {"size": size, "uid": uid, "disk_type": 3, "original_size": _orig(cfg, size), "block_size": bs, "table_offset": bat_off,
                     "max_table_entries": nblocks}
         img.meta_bytes = 512 + 1024 + 4 * nblocks + 512
         img.info = {"bat": bat, "unit_bytes": bs, "stride": stride}
